@@ -582,7 +582,11 @@ func (s *State) loadParent(p *Term) *Term {
 // A literal base is merged; any other base is kept as a leading "base" argument.
 func overlay(base *Term, kvs []*Term) *Term {
 	if base == nil || base.Op == "const" && strings.HasPrefix(base.Aux, "zero") {
-		return &Term{Op: "lit", Args: kvs}
+		out := &Term{Op: "lit", Args: kvs}
+		if base != nil {
+			out.Typ = base.Typ
+		}
+		return out
 	}
 	if base.Op == "lit" {
 		merged := map[string]*Term{}
@@ -602,7 +606,7 @@ func overlay(base *Term, kvs []*Term) *Term {
 			names = append(names, n)
 		}
 		sort.Strings(names)
-		out := &Term{Op: "lit"}
+		out := &Term{Op: "lit", Typ: base.Typ}
 		if baseArg != nil {
 			out.Args = append(out.Args, baseArg)
 		}
@@ -639,10 +643,30 @@ func indexOf(v, idx *Term) *Term {
 				return r
 			}
 		case v.Op == "const" && strings.HasPrefix(v.Aux, "zero"):
-			return &Term{Op: "const", Aux: "zero:." + name}
+			return zeroSub(v, name)
 		}
 	}
 	return &Term{Op: "index", Args: []*Term{v, idx}}
+}
+
+// zeroSub: the zero value of the field / element `name` of a composite whose own value is (partly) zero: a proper
+// constant when the composite's type is known (so that `c.pos` of `cursor{seq: s}` is 0), an opaque zero otherwise.
+func zeroSub(v *Term, name string) *Term {
+	if v.Typ != nil {
+		switch u := v.Typ.Underlying().(type) {
+		case *types.Struct:
+			for i := 0; i < u.NumFields(); i++ {
+				if u.Field(i).Name() == name {
+					return zeroTerm(u.Field(i).Type())
+				}
+			}
+		case *types.Array:
+			if strings.HasPrefix(name, "#") {
+				return zeroTerm(u.Elem())
+			}
+		}
+	}
+	return &Term{Op: "const", Aux: "zero:." + name}
 }
 
 func fieldOf(v *Term, name string) *Term {
@@ -660,10 +684,10 @@ func fieldOf(v *Term, name string) *Term {
 		if baseArg != nil {
 			return fieldOf(baseArg.Args[0], name)
 		}
-		return &Term{Op: "const", Aux: "zero:." + name}
+		return zeroSub(v, name)
 	}
 	if v.Op == "const" && strings.HasPrefix(v.Aux, "zero") {
-		return &Term{Op: "const", Aux: "zero:." + name}
+		return zeroSub(v, name)
 	}
 	if v.Op == "load" && len(v.Args) == 1 {
 		// a field of a struct value loaded from memory is the content of that field's cell in the same memory
@@ -2165,6 +2189,14 @@ func simplifyLenCap(op string, x *Term) *Term {
 		return x.Args[1]
 	case x.Op == "mkchan" && op == "cap":
 		return x.Args[0]
+	case x.Op == "slice" && op == "len" && len(x.Args) == 4 && x.Args[2].Aux != "_":
+		// len(x[:hi]) = hi, len(x[lo:hi]) = hi - lo
+		if x.Args[1].Aux == "_" && x.Args[1].Op == "const" {
+			return x.Args[2]
+		}
+		if lo, ok := x.Args[1].IntConst(); ok && lo == 0 {
+			return x.Args[2]
+		}
 	}
 	return &Term{Op: op, Args: []*Term{x}}
 }
@@ -2254,7 +2286,12 @@ func (ex *explorer) simple(st *State, in ssa.Instruction) {
 			}
 			return ex.eval(st, v)
 		}
-		f.env[in] = &Term{Op: "slice", Args: []*Term{ex.eval(st, in.X), opt(in.Low), opt(in.High), opt(in.Max)}, Typ: in.Type()}
+		base, lo, hi := ex.eval(st, in.X), opt(in.Low), opt(in.High)
+		// x[a:len(x)] is x[a:] (the bound bound to a local first, `n := len(x); x[1:n]`)
+		if hi.Op == "len" && len(hi.Args) == 1 && Same(hi.Args[0], base) && in.Max == nil {
+			hi = &Term{Op: "const", Aux: "_"}
+		}
+		f.env[in] = &Term{Op: "slice", Args: []*Term{base, lo, hi, opt(in.Max)}, Typ: in.Type()}
 	case *ssa.MakeSlice:
 		f.env[in] = &Term{Op: "mkslice", Aux: ex.instrID(in) + f.id, Args: []*Term{ex.eval(st, in.Len), ex.eval(st, in.Cap)}, Typ: in.Type()}
 	case *ssa.MakeChan:
